@@ -341,3 +341,47 @@ def silence_sync(run):
         else:
             out.append(e)
     return out
+
+
+def project_drop(run, keep):
+    """Projection for the properties other than C19: the drop accounting event is not compared, and a drop that
+    hangs or crashes after the last command returned is not this property's business."""
+    if keep:
+        return run
+    out = []
+    for i, e in enumerate(run):
+        if e.get("ev") == "drop":
+            out.append(dict(e, wild=["drop"]))
+        elif e.get("ev") in ("hang", "crash") and i > 0 and run[i - 1].get("ev") == "ret" and not _cmds_left(run):
+            out.append(dict(ev="drop", wild=["drop"], abandoned=False))
+            out.append(dict(ev="end", run=run[0].get("run")))
+        else:
+            out.append(e)
+    return out
+
+
+def _cmds_left(run):
+    ncmd = run[0].get("ncmds")
+    if ncmd is None:
+        return False
+    done = sum(1 for e in run if e.get("ev") == "cmd")
+    return done < ncmd
+
+
+def strip_stray(run):
+    """On the thread pool a run aborted by a panic returns while other workers may still be finishing the handler
+    they were in; the events of that tail (logged between the failing return and the next command) belong to the
+    aborted run, which the specification covers by letting handlers progress until Abort: they are dropped here."""
+    if run[0].get("threads", 1) <= 1:
+        return run
+    out, skipping = [], False
+    for e in run:
+        ev = e.get("ev")
+        if skipping and ev in ("begin", "op"):
+            continue
+        if ev in ("cmd", "drop", "end", "hang", "crash"):
+            skipping = False
+        out.append(e)
+        if ev == "ret" and e["res"].get("r") in ("panic", "norecipient"):
+            skipping = True
+    return out
